@@ -343,6 +343,9 @@ def illformed_variants(rng):
         yield "rule-named-as-alias-across-texts", [f"DEFINE x AS {body}\n" + base, second.replace("RULE r1", "RULE x")]
     yield "alias-named-as-rule", [base + "DEFINE r0 AS b\n" + second]
     yield "alias-named-as-rule-across-texts", [base, "DEFINE r0 AS b\n" + second]
+    # a lone identifier in cds(...) stays a lone identifier under any number of redundant parentheses and one negation
+    for body in ("b", "(b)", "((b))", "(((b)))", "not b", "(not (b))", "not ((b))", "((not b))"):
+        yield "cds-of-a-single-identifier", [f"RULE r0 CATEGORY catA CUTOFF 5 NEIGHBOURHOOD 5 CONDITIONS a and cds({body})\n"]
     yield "repeated-operand-and", [f"RULE r0 CATEGORY catA CUTOFF 5 NEIGHBOURHOOD 5 CONDITIONS {prof} and b and {prof}\n"
                                    if prof != "b" else "RULE r0 CATEGORY catA CUTOFF 5 NEIGHBOURHOOD 5 CONDITIONS b and a and b\n"]
     yield "repeated-operand-or", ["RULE r0 CATEGORY catA CUTOFF 5 NEIGHBOURHOOD 5 CONDITIONS a or (b and c) or a\n"]
